@@ -14,6 +14,7 @@ import (
 	"sort"
 
 	"verif/harness/internal/bt"
+	"verif/harness/internal/gcs"
 	"verif/harness/internal/core"
 )
 
@@ -28,6 +29,8 @@ func main() {
 	switch os.Args[1] {
 	case "bt":
 		cmdBt(os.Args[2:])
+	case "gcs":
+		cmdGcs(os.Args[2:])
 	default:
 		fmt.Fprintln(os.Stderr, "unknown subcommand", os.Args[1])
 		os.Exit(2)
@@ -110,4 +113,79 @@ func loadBtProgram(path string) ([]core.Op, error) {
 		out[i] = o
 	}
 	return out, nil
+}
+
+func cmdGcs(args []string) {
+	fs := flag.NewFlagSet("gcs", flag.ExitOnError)
+	scenario := fs.String("scenario", "c02", "generator profile")
+	seed := fs.Uint64("seed", 1, "PRNG seed")
+	n := fs.Int("programs", 50, "number of random programs")
+	stores := fs.String("engines", "all", "comma list: mem,file")
+	out := fs.String("out", "-", "report path")
+	corpus := fs.String("corpus", "", "directory of saved programs (JSON) to run first")
+	replay := fs.String("replay", "", "run only this saved program / replay file")
+	fs.Parse(args)
+
+	var progs [][]core.Op
+	load := func(path string) {
+		b, err := os.ReadFile(path)
+		if err != nil {
+			fmt.Fprintln(os.Stderr, err)
+			os.Exit(2)
+		}
+		var raw json.RawMessage = b
+		var obj struct {
+			OpsJSON json.RawMessage `json:"ops_json"`
+		}
+		if json.Unmarshal(b, &obj) == nil && len(obj.OpsJSON) > 0 {
+			raw = obj.OpsJSON
+		}
+		var ops []*gcs.Op
+		if err := json.Unmarshal(raw, &ops); err != nil {
+			fmt.Fprintln(os.Stderr, path, err)
+			os.Exit(2)
+		}
+		p := make([]core.Op, len(ops))
+		for i, o := range ops {
+			p[i] = o
+		}
+		progs = append(progs, p)
+	}
+	if *replay != "" {
+		load(*replay)
+		*n = 0
+	}
+	if *corpus != "" {
+		files, _ := filepath.Glob(filepath.Join(*corpus, "*.json"))
+		sort.Strings(files)
+		for _, f := range files {
+			load(f)
+		}
+	}
+	exhaustive := false
+	if gen, ok := gcs.Exhaustive[*scenario]; ok && *replay == "" {
+		progs = append(progs, gen(*seed, *n)...)
+		exhaustive = *n <= 0
+	} else if *n > 0 {
+		prof, ok := gcs.Profiles[*scenario]
+		if !ok {
+			fmt.Fprintln(os.Stderr, "unknown scenario", *scenario)
+			os.Exit(2)
+		}
+		root := core.NewRng(*seed)
+		for i := 0; i < *n; i++ {
+			g := &gcs.Gen{R: root.Fork(), P: prof}
+			progs = append(progs, g.Program())
+		}
+	}
+	rep := core.RunPrograms("gcs/"+*scenario, *seed, progs, gcs.Stores(*stores), gcs.Accept)
+	rep.Exhaustive = exhaustive
+	rep.Hypothesis = gcs.ClockHypothesis()
+	if err := rep.Write(*out); err != nil {
+		fmt.Fprintln(os.Stderr, err)
+		os.Exit(2)
+	}
+	if len(rep.Mismatches) > 0 || len(rep.ModelErrors) > 0 {
+		os.Exit(1)
+	}
 }
